@@ -49,17 +49,17 @@ VARIABLES
     \* ---- maintainer
     pc,            \* where the control loop is
     eligible,      \* this run (invocation of proveEpochs) passed verifySubmissionEligibility
-    okRun,         \* highest epoch this run got accepted by the relay (-1: none)
-    hRead, eRead, pRead,   \* values read by proveNextEpoch
-    target,        \* epoch waitForCurrentEpochUpdate waits for
+    okRun,         \* highest epoch this run got accepted by the relay (-1: none);
+                   \* while pc = "wait" it is the epoch waitForCurrentEpochUpdate waits for
+    hRead, eRead, pRead,   \* values read by proveNextEpoch (0 when not in use)
     \* ---- bookkeeping
-    sub,           \* the last submission (sub.n = number of submissions so far)
+    sub,           \* the last submission, with the facts that held when it was made
     okEver,        \* highest epoch this maintainer ever got accepted (-1: none)
     verified,      \* a verification passed since the last rejected submission
     faults, envs, lags
 
 envVars == <<height, relayEpoch, visibleEpoch, proofLen, ready, authDirect, authRefund, disableProxy>>
-mVars == <<pc, eligible, okRun, hRead, eRead, pRead, target>>
+mVars == <<pc, eligible, okRun, hRead, eRead, pRead>>
 hVars == <<sub, okEver, verified>>
 vars == <<envVars, mVars, hVars, faults, envs, lags>>
 
@@ -73,18 +73,20 @@ Last == NewEpoch * L + pRead - 1
 Authorized == IF disableProxy THEN authDirect ELSE authRefund
 Via == IF disableProxy THEN "Retarget" ELSE "RetargetWithRefund"
 
-NoSub == [n |-> 0, epoch |-> 0, first |-> 0, last |-> 0, via |-> "none", ok |-> FALSE, eligible |-> TRUE,
-          verified |-> TRUE, hRead |-> 0, eRead |-> -1, pRead |-> 0, height |-> 0, relay |-> -1,
-          okRunBefore |-> -1, okEverBefore |-> -1]
+NoSub == [via |-> "none", epoch |-> 0, first |-> 0, last |-> 0, ok |-> FALSE,
+          eligible |-> TRUE, verified |-> TRUE, next |-> TRUE, mined |-> TRUE,
+          movedOn |-> TRUE, notBehind |-> TRUE, rightForRelay |-> TRUE]
 
 Init ==
     /\ height \in {L - 2, L, L + 1}
     /\ relayEpoch \in {0, 1} /\ visibleEpoch = relayEpoch
     /\ proofLen \in ProofLens
-    /\ ready \in BOOLEAN /\ authDirect \in BOOLEAN /\ authRefund \in BOOLEAN
-    /\ disableProxy \in BOOLEAN
+    /\ ready \in BOOLEAN /\ disableProxy \in BOOLEAN
+    \* the authorization that does not apply to the configured mode is the opposite one,
+    \* so that consulting the wrong one changes the outcome
+    /\ authDirect \in BOOLEAN /\ authRefund = ~authDirect
     /\ pc = "start" /\ eligible = FALSE /\ okRun = -1
-    /\ hRead = 0 /\ eRead = 0 /\ pRead = 0 /\ target = 0
+    /\ hRead = 0 /\ eRead = 0 /\ pRead = 0
     /\ sub = NoSub /\ okEver = -1 /\ verified = TRUE
     /\ faults = 0 /\ envs = 0 /\ lags = 0
 
@@ -95,14 +97,15 @@ Init ==
 Fails == /\ faults < MaxFaults /\ faults' = faults + 1
 NoFault == UNCHANGED faults
 
-ToBackoff == /\ pc' = "backoff" /\ UNCHANGED <<eligible, okRun, hRead, eRead, pRead, target>>
+\* an error ends proveEpochs; its locals die with it
+ToBackoff == /\ pc' = "backoff" /\ hRead' = 0 /\ eRead' = 0 /\ pRead' = 0 /\ UNCHANGED <<eligible, okRun>>
 
 \* isReady, err := bdm.chain.Ready()
 QueryReady ==
     /\ pc = "start"
     /\ \/ Fails /\ ToBackoff
        \/ NoFault /\ ~ready /\ ToBackoff                                    \* errNoGenesis
-       \/ NoFault /\ ready /\ pc' = "auth" /\ UNCHANGED <<eligible, okRun, hRead, eRead, pRead, target>>
+       \/ NoFault /\ ready /\ pc' = "auth" /\ UNCHANGED <<eligible, okRun, hRead, eRead, pRead>>
     /\ UNCHANGED <<envVars, hVars, envs, lags>>
 
 \* IsAuthorized (DisableProxy) / IsAuthorizedForRefund (otherwise)
@@ -111,21 +114,21 @@ QueryAuth ==
     /\ \/ Fails /\ ToBackoff /\ UNCHANGED verified
        \/ NoFault /\ ~Authorized /\ ToBackoff /\ UNCHANGED verified         \* errNotAuthorized
        \/ NoFault /\ Authorized /\ pc' = "height" /\ eligible' = TRUE /\ verified' = TRUE
-          /\ UNCHANGED <<okRun, hRead, eRead, pRead, target>>
+          /\ UNCHANGED <<okRun, hRead, eRead, pRead>>
     /\ UNCHANGED <<envVars, sub, okEver, envs, lags>>
 
 \* currentBlockHeight, err := bdm.btcChain.GetLatestBlockHeight()
 QueryHeight ==
     /\ pc = "height"
     /\ \/ Fails /\ ToBackoff
-       \/ NoFault /\ hRead' = height /\ pc' = "epoch" /\ UNCHANGED <<eligible, okRun, eRead, pRead, target>>
+       \/ NoFault /\ hRead' = height /\ pc' = "epoch" /\ UNCHANGED <<eligible, okRun, eRead, pRead>>
     /\ UNCHANGED <<envVars, hVars, envs, lags>>
 
 \* currentEpoch, err := bdm.chain.CurrentEpoch()
 QueryEpoch ==
     /\ pc = "epoch"
     /\ \/ Fails /\ ToBackoff
-       \/ NoFault /\ eRead' = visibleEpoch /\ pc' = "plen" /\ UNCHANGED <<eligible, okRun, hRead, pRead, target>>
+       \/ NoFault /\ eRead' = visibleEpoch /\ pc' = "plen" /\ UNCHANGED <<eligible, okRun, hRead, pRead>>
     /\ UNCHANGED <<envVars, hVars, envs, lags>>
 
 \* proofLength, err := bdm.chain.ProofLength(); range computation;
@@ -133,16 +136,18 @@ QueryEpoch ==
 QueryProofLen ==
     /\ pc = "plen"
     /\ \/ Fails /\ ToBackoff
-       \/ /\ NoFault /\ pRead' = proofLen
-          /\ pc' = IF hRead >= (eRead + 1) * L + proofLen - 1 THEN "headers" ELSE "idle"
-          /\ UNCHANGED <<eligible, okRun, hRead, eRead, target>>
+       \/ /\ NoFault
+          /\ IF hRead >= (eRead + 1) * L + proofLen - 1
+                THEN pc' = "headers" /\ pRead' = proofLen /\ UNCHANGED <<hRead, eRead>>
+                ELSE pc' = "idle" /\ hRead' = 0 /\ eRead' = 0 /\ pRead' = 0      \* return false, nil
+          /\ UNCHANGED <<eligible, okRun>>
     /\ UNCHANGED <<envVars, hVars, envs, lags>>
 
 \* headers, err := bdm.getBlockHeaders(first, last): one GetBlockHeader per height
 FetchHeaders ==
     /\ pc = "headers"
     /\ \/ Fails /\ ToBackoff
-       \/ NoFault /\ pc' = "submit" /\ UNCHANGED <<eligible, okRun, hRead, eRead, pRead, target>>
+       \/ NoFault /\ pc' = "submit" /\ UNCHANGED <<eligible, okRun, hRead, eRead, pRead>>
     /\ UNCHANGED <<envVars, hVars, envs, lags>>
 
 \* what the relay does with a retarget: it accepts it iff the maintainer is
@@ -150,10 +155,15 @@ FetchHeaders ==
 \* current one and has the relay's proof length on each side
 RelayAccepts == ready /\ Authorized /\ NewEpoch = relayEpoch + 1 /\ pRead = proofLen
 
+\* a submission with the facts that hold at the moment it is made
 Submission(ok) ==
-    [n |-> sub.n + 1, epoch |-> NewEpoch, first |-> First, last |-> Last, via |-> Via, ok |-> ok,
-     eligible |-> eligible, verified |-> verified, hRead |-> hRead, eRead |-> eRead, pRead |-> pRead,
-     height |-> height, relay |-> relayEpoch, okRunBefore |-> okRun, okEverBefore |-> okEver]
+    [via |-> Via, epoch |-> NewEpoch, first |-> First, last |-> Last, ok |-> ok,
+     eligible |-> eligible, verified |-> verified,
+     next |-> (NewEpoch = eRead + 1),
+     mined |-> (Last <= hRead /\ hRead <= height),
+     movedOn |-> (okRun >= 0 => (eRead >= okRun /\ NewEpoch > okRun)),
+     notBehind |-> (okEver >= 0 => NewEpoch >= okEver),
+     rightForRelay |-> (ok => NewEpoch = relayEpoch + 1)]
 
 \* bdm.chain.Retarget(headers) / RetargetWithRefund(headers)
 Submit ==
@@ -169,8 +179,8 @@ Submit ==
           /\ relayEpoch' = NewEpoch
           /\ \/ visibleEpoch' = NewEpoch /\ UNCHANGED lags
              \/ lags < MaxLag /\ lags' = lags + 1 /\ UNCHANGED visibleEpoch
-          /\ pc' = "wait" /\ target' = NewEpoch
-          /\ UNCHANGED <<eligible, verified, hRead, eRead, pRead>>
+          /\ pc' = "wait" /\ hRead' = 0 /\ eRead' = 0 /\ pRead' = 0
+          /\ UNCHANGED <<eligible, verified>>
           /\ UNCHANGED <<height, proofLen, ready, authDirect, authRefund, disableProxy>>
     /\ UNCHANGED envs
 
@@ -179,19 +189,19 @@ PollEpoch ==
     /\ pc = "wait"
     /\ \/ Fails /\ ToBackoff
        \/ /\ NoFault
-          /\ pc' = IF visibleEpoch >= target THEN "height" ELSE "wait"   \* epochProven: no idle wait
-          /\ UNCHANGED <<eligible, okRun, hRead, eRead, pRead, target>>
+          /\ pc' = IF visibleEpoch >= okRun THEN "height" ELSE "wait"   \* epochProven: no idle wait
+          /\ UNCHANGED <<eligible, okRun, hRead, eRead, pRead>>
     /\ UNCHANGED <<envVars, hVars, envs, lags>>
 
 \* proveEpochs: time.After(IdleBackOffTime) after an iteration that proved nothing
 IdleDone ==
     /\ pc = "idle" /\ pc' = "height"
-    /\ UNCHANGED <<envVars, eligible, okRun, hRead, eRead, pRead, target, hVars, faults, envs, lags>>
+    /\ UNCHANGED <<envVars, eligible, okRun, hRead, eRead, pRead, hVars, faults, envs, lags>>
 
 \* startControlLoop: time.After(RestartBackOffTime), then proveEpochs again
 BackoffDone ==
     /\ pc = "backoff" /\ pc' = "start" /\ eligible' = FALSE /\ okRun' = -1
-    /\ UNCHANGED <<envVars, hRead, eRead, pRead, target, hVars, faults, envs, lags>>
+    /\ UNCHANGED <<envVars, hRead, eRead, pRead, hVars, faults, envs, lags>>
 
 ---------------------------------------------------------------------------
 (* Environment *)
@@ -199,7 +209,7 @@ BackoffDone ==
 Mine(k) ==
     /\ height + k <= MaxHeight /\ height' = height + k
     /\ UNCHANGED <<relayEpoch, visibleEpoch, proofLen, ready, authDirect, authRefund, disableProxy, mVars, hVars, faults, envs, lags>>
-DoMine == \E k \in {1, 2, L - 3} : Mine(k)
+DoMine == \E k \in {1, 3} : Mine(k)
 
 \* another maintainer proves the next epoch first (possible once its headers exist)
 OtherRetarget ==
@@ -215,12 +225,12 @@ Propagate ==
     /\ visibleEpoch # relayEpoch /\ visibleEpoch' = relayEpoch
     /\ UNCHANGED <<height, relayEpoch, proofLen, ready, authDirect, authRefund, disableProxy, mVars, hVars, faults, envs, lags>>
 
+\* governance: proof length, readiness, the authorization that applies to the mode
 EnvChange ==
     /\ envs < MaxEnv /\ envs' = envs + 1
     /\ \/ \E p \in ProofLens \ {proofLen} : proofLen' = p /\ UNCHANGED <<ready, authDirect, authRefund>>
        \/ ready' = ~ready /\ UNCHANGED <<proofLen, authDirect, authRefund>>
-       \/ authDirect' = ~authDirect /\ UNCHANGED <<proofLen, ready, authRefund>>
-       \/ authRefund' = ~authRefund /\ UNCHANGED <<proofLen, ready, authDirect>>
+       \/ authDirect' = ~authDirect /\ authRefund' = ~authRefund /\ UNCHANGED <<proofLen, ready>>
     /\ UNCHANGED <<height, relayEpoch, visibleEpoch, disableProxy, mVars, hVars, faults, lags>>
 
 Next == QueryReady \/ QueryAuth \/ QueryHeight \/ QueryEpoch \/ QueryProofLen \/ FetchHeaders
@@ -239,19 +249,18 @@ TypeOK ==
     /\ pc \in Pcs /\ height \in 0..MaxHeight /\ relayEpoch \in Nat
     /\ visibleEpoch <= relayEpoch /\ proofLen \in ProofLens
 
-Any == sub.n > 0        \* the invariants speak about every submission at the moment it is made
+Any == sub.via # "none"     \* the invariants speak about every submission at the moment it is made
 
 \* C43: headers are submitted only for the epoch after the relay's current one (as read)
-OnlyNextEpoch == Any => sub.epoch = sub.eRead + 1
+OnlyNextEpoch == Any => sub.next
 
 \* C43: exactly the proof-length headers before and after the epoch's first block
 ExactHeaders ==
-    Any => /\ sub.first = sub.epoch * L - sub.pRead
-           /\ sub.last = sub.epoch * L + sub.pRead - 1
-           /\ sub.last - sub.first + 1 = 2 * sub.pRead
+    Any => \E p \in ProofLens : /\ sub.first = sub.epoch * L - p
+                                /\ sub.last = sub.epoch * L + p - 1
 
 \* C43: ... once all of them are mined
-AllMined == Any => (sub.last <= sub.hRead /\ sub.hRead <= sub.height)
+AllMined == Any => sub.mined
 
 \* C43: never when not ready / not authorized: every submission belongs to a run whose
 \* eligibility verification passed, through the entry point that was verified
@@ -259,25 +268,27 @@ OnlyWhenEligible == Any => (sub.eligible /\ sub.via = Via)
 
 \* C43: after an accepted submission for E the same run submits again only after it saw
 \* the relay at E or later, and for a later epoch (each epoch is proven once per run)
-MovesOnAfterRelayReached ==
-    (Any /\ sub.okRunBefore >= 0) => (sub.eRead >= sub.okRunBefore /\ sub.epoch > sub.okRunBefore)
+MovesOnAfterRelayReached == Any => sub.movedOn
 
 \* across restarts (a failed poll, a stale view) the maintainer never goes back behind
 \* an epoch it has proven
-NeverBehindProven == (Any /\ sub.okEverBefore >= 0) => sub.epoch >= sub.okEverBefore
+NeverBehindProven == Any => sub.notBehind
 
 \* a rejected submission ends the run: the next one comes after a new verification
 RejectedEndsRun == Any => sub.verified
 
 \* while waiting, the maintainer waits for the epoch it has just proven
 WaitsForOwnEpoch ==
-    pc = "wait" => /\ Any /\ sub.ok /\ target = sub.epoch /\ relayEpoch >= target /\ okRun = target
+    pc = "wait" => /\ Any /\ sub.ok /\ okRun = sub.epoch /\ relayEpoch >= okRun
 
 \* nothing is fetched or submitted unless this run is eligible
 WorkOnlyWhenEligible == pc \in {"height", "epoch", "plen", "headers", "submit", "wait", "idle"} => eligible
 
 \* an accepted submission is exactly what the relay needed
-AcceptedIsRight == (Any /\ sub.ok) => sub.epoch = sub.relay + 1
+AcceptedIsRight == Any => sub.rightForRelay
+
+\* the decision to fetch headers was taken on a mined range
+FetchOnlyMined == pc \in {"headers", "submit"} => (Last <= hRead /\ hRead <= height /\ pRead \in ProofLens)
 
 \* liveness (faults and environment changes exhausted): a provable epoch gets proven
 Provable(e) == /\ relayEpoch = e /\ ready /\ Authorized /\ faults = MaxFaults /\ envs = MaxEnv
